@@ -253,39 +253,70 @@ func runC02(c *Ctx) {
 
 	c.rule("C02.V3", knownWorkDoc, func() { c.knownWorkLoop() })
 
-	c.rule("C02.V2", "the checkpoint floor is findPreviousHeaderCheckpoint(prevNode.Height) with prevNode the tail of headerList", func() {
+	c.rule("C02.V2", checkpointFloorDoc, func() { c.checkpointFloor() })
+
+	c.rule("C02.V4", "the offered branch is validated against its own ancestors: in the loop over the branch headers (msg.Headers[i:]) the header handed to checkHeaderSanity(..,true,..) is the element at the loop position, the parent height is (fork height) + position, the fork height being the one FetchHeader returned for the fork point, and the node pushed on reorgList carries (fork height) + 1 + position (the retarget and median-time rules look ancestors up by these heights)", func() {
 		fn := c.fn(fnHandleHeaders)
-		findPrev := c.method("neutrino", "blockManager", "findPreviousHeaderCheckpoint")
-		back := c.method("headerlist", "Chain", "Back")
+		sanity := c.method("neutrino", "blockManager", "checkHeaderSanity")
+		san := find(fn, withArg(callTo(sanity), 2, isConstBool(true)))
+		if len(san) == 0 {
+			c.fail(c.nm(fn)+" | reorg sanity call", c.P.Pos(fn.Pos()), "no checkHeaderSanity(.., true, ..) call found")
+			return
+		}
+		isBack := func(v ssa.Value) bool {
+			e, ok := ir.Strip(v).(*ssa.Extract)
+			if !ok || e.Index != 1 {
+				return false
+			}
+			in, ok := e.Tuple.(ssa.Instruction)
+			return ok && callTo(bhs("FetchHeader"))(in)
+		}
 		nodeHeight := c.field("headerlist", "Node", "Height")
-		cpHeight := c.field(pChaincfg, "Checkpoint", "Height")
-		n := 0
-		for _, in := range find(fn, callTo(findPrev)) {
-			// only the call whose result feeds the floor comparison
-			v := in.(ssa.Value)
-			feeds := false
-			ir.Instrs(fn, func(x ssa.Instruction) {
-				b, ok := x.(*ssa.BinOp)
-				if !ok || (b.Op != token.LSS && b.Op != token.GEQ && b.Op != token.GTR && b.Op != token.LEQ) {
-					return
-				}
-				for _, op := range []ssa.Value{b.X, b.Y} {
-					if loadsField(cpHeight)(op) && ir.DerivesFrom(op, func(y ssa.Value) bool { return y == v }) {
-						feeds = true
-					}
-				}
-			})
-			if !feeds {
+		for _, s := range san {
+			h := ir.LoopHeaderOf(s.Block())
+			construct := c.nm(fn) + " | parent height of a branch header = fork height + position"
+			if h == nil {
+				c.fail(construct, c.at(s), "the reorg sanity check is not inside a loop over the branch")
 				continue
 			}
-			n++
-			a := argsOf(in)[0]
-			okv := loadsField(nodeHeight)(a) && ir.DerivesFrom(a, valIsCallTo(back))
-			c.verdict(okv, c.nm(fn)+" | floor = findPreviousHeaderCheckpoint(headerList.Back().Height)", c.at(in),
-				"argument is the height of headerList.Back()", "argument of findPreviousHeaderCheckpoint is not the height of the current tail of headerList", c.at(in))
-		}
-		if n == 0 {
-			c.fail(c.nm(fn)+" | floor = findPreviousHeaderCheckpoint(headerList.Back().Height)", c.P.Pos(fn.Pos()), "no findPreviousHeaderCheckpoint result feeds a comparison with the fork height")
+			lf := loopFormOf(h)
+			if lf.problem != "" {
+				c.fail(construct, c.at(s), lf.problem)
+				continue
+			}
+			cc := ir.CallOf(s)
+			// validated header: element at the loop position of a sub-slice of msg.Headers
+			elemOK := ir.DerivesFrom(cc.Args[1], func(x ssa.Value) bool {
+				ia, ok := x.(*ssa.IndexAddr)
+				if !ok {
+					return false
+				}
+				off, isCtr := counterOffset(lf, ia.Index)
+				return isCtr && off == 0 && loadsField(msgHeaders())(ia.X)
+			})
+			c.verdict(elemOK, c.nm(fn)+" | validated branch header is the element at the loop position", c.at(s), "msg.Headers[i:][position]", "the header handed to checkHeaderSanity is not the element at the loop position of msg.Headers[i:]", c.at(s))
+			coef, ctr, k, ok := linTerms(cc.Args[3], lf, isBack)
+			okH := ok && coef[0] == 1 && ctr == 1 && k == 0
+			c.verdict(okH, construct, c.at(s), "backHeight + position", fmt.Sprintf("the parent height handed to checkHeaderSanity is not (fork height) + (position in the branch) (decomposed: fork height x%d, position x%d, constant %+d, other terms: %v): the contextual checks (retarget, median time past) would look at the wrong ancestors whenever the message starts with headers the client already has", coef[0], ctr, k, !ok), c.at(s))
+			// the node pushed for this header
+			in := ir.LoopBlocks(h)
+			nPush := 0
+			ir.Instrs(fn, func(x ssa.Instruction) {
+				st, isSt := x.(*ssa.Store)
+				if !isSt || !in[st.Block()] {
+					return
+				}
+				fa, isFa := st.Addr.(*ssa.FieldAddr)
+				if !isFa || ir.FieldOfAddr(fa) != nodeHeight {
+					return
+				}
+				nPush++
+				coef, ctr, k, ok := linTerms(st.Val, lf, isBack)
+				c.verdict(ok && coef[0] == 1 && ctr == 1 && k == 1, c.nm(fn)+" | height of the node pushed on reorgList = fork height + 1 + position", c.at(x), "backHeight + 1 + position", fmt.Sprintf("the height recorded for a branch header on reorgList is not (fork height) + 1 + position (fork height x%d, position x%d, constant %+d, other terms: %v)", coef[0], ctr, k, !ok), c.at(x))
+			})
+			if nPush == 0 {
+				c.fail(c.nm(fn)+" | height of the node pushed on reorgList = fork height + 1 + position", c.at(s), "no headerlist.Node with a Height is built inside the branch loop")
+			}
 		}
 	})
 
@@ -512,4 +543,55 @@ func (c *Ctx) knownWorkLoop() {
 	}
 	isAdd := func(in ssa.Instruction) bool { return in == adds[0] }
 	c.mustFollowIter(fn, "each height between tip and fork", starts, isAdd, "knownWork.Add(knownWork, CalcWork(header.Bits))", nil, 1)
+}
+
+const checkpointFloorDoc = "the checkpoint floor of a reorganisation is the last checkpoint at or below the tip: findPreviousHeaderCheckpoint (strictly-below semantics, C01.G6) is asked with prevNode.Height + 1, prevNode being the tail of headerList"
+
+// checkpointFloor: see checkpointFloorDoc (shared by C02.V2 and C01.V5).
+func (c *Ctx) checkpointFloor() {
+		fn := c.fn(fnHandleHeaders)
+		findPrev := c.method("neutrino", "blockManager", "findPreviousHeaderCheckpoint")
+		back := c.method("headerlist", "Chain", "Back")
+		nodeHeight := c.field("headerlist", "Node", "Height")
+		cpHeight := c.field(pChaincfg, "Checkpoint", "Height")
+		n := 0
+		for _, in := range find(fn, callTo(findPrev)) {
+			// only the call whose result feeds the floor comparison
+			v := in.(ssa.Value)
+			feeds := false
+			ir.Instrs(fn, func(x ssa.Instruction) {
+				b, ok := x.(*ssa.BinOp)
+				if !ok || (b.Op != token.LSS && b.Op != token.GEQ && b.Op != token.GTR && b.Op != token.LEQ) {
+					return
+				}
+				for _, op := range []ssa.Value{b.X, b.Y} {
+					if loadsField(cpHeight)(op) && ir.DerivesFrom(op, func(y ssa.Value) bool { return y == v }) {
+						feeds = true
+					}
+				}
+			})
+			if !feeds {
+				continue
+			}
+			n++
+			a := argsOf(in)[0]
+			isTipHeight := func(v ssa.Value) bool {
+				ld, ok := ir.Strip(v).(*ssa.UnOp)
+				if !ok || ld.Op != token.MUL {
+					return false
+				}
+				fa, ok := ld.X.(*ssa.FieldAddr)
+				return ok && ir.FieldOfAddr(fa) == nodeHeight && ir.DerivesFrom(fa.X, valIsCallTo(back))
+			}
+			// findPreviousHeaderCheckpoint(h) is the last checkpoint strictly
+			// below h (C01.G6): the floor "last checkpoint at or below the tip"
+			// is therefore asked for with tip height + 1
+			coef, _, k, okLin := linTerms(a, nil, isTipHeight)
+			okv := okLin && coef[0] == 1 && k == 1
+			c.verdict(okv, c.nm(fn)+" | floor = findPreviousHeaderCheckpoint(headerList.Back().Height + 1)", c.at(in),
+				"argument is the height of headerList.Back() plus one", fmt.Sprintf("argument of findPreviousHeaderCheckpoint is not (height of the current tail of headerList) + 1 (tail height x%d, constant %+d, other terms: %v): with the tail height itself a tip sitting exactly on a checkpoint does not protect that checkpoint (the helper is strict); with any other value the floor is not the last checkpoint the accepted chain has reached", coef[0], k, !okLin), c.at(in))
+		}
+		if n == 0 {
+			c.fail(c.nm(fn)+" | floor = findPreviousHeaderCheckpoint(headerList.Back().Height + 1)", c.P.Pos(fn.Pos()), "no findPreviousHeaderCheckpoint result feeds a comparison with the fork height")
+		}
 }
